@@ -9,8 +9,13 @@
 // on both; the Linux kernel (through osfs.OsFS, i.e. package os) and
 // path/filepath.EvalSymlinks are the oracle. Mutating calls run on a pristine
 // copy of the configuration and are followed by a comparison of the whole
-// trees, which shows which object was reached. A separate sweep covers chains
-// of 1..70 links. Worker subprocesses each own a scratch tree and a cwd.
+// trees, which shows which object was reached. The moved stages (M, M4, N)
+// cross the graphs with every move of space.go/allMoves - Rename calls applied
+// to both sides between the last Symlink and the questions (the link to the
+// other directory, its directory renamed, another directory taking the old
+// name, the root renamed, there and back): a link is followed from where it
+// is, not from where it was made. A separate sweep covers chains of 1..70
+// links. Worker subprocesses each own a scratch tree and a cwd.
 package main
 
 import (
@@ -236,13 +241,13 @@ func main() {
 	var (
 		results  []stageResult
 		exh      = true
-		graphs   = map[int]int{}
+		graphs   = map[string]int{} // distinct configurations: stages over the same graphs (and moves) differ in the queries only
 		evalsAll = cst.Evals
 		harness  string
 	)
 
 	for si, st := range stages {
-		sp := newSpace(st.NLinks)
+		sp := st.space()
 		sr := stageResult{Stage: st.Name, Bound: st.bound(), Configs: sp.numConfigs()}
 		t0 := time.Now()
 
@@ -335,7 +340,7 @@ func main() {
 					mergeViol(si, &violRec{Sig: kf.Sig{"call": "-", "kind": "hang", "kernel": "returns", "avfs": "HANG"}, Count: 1, Replay: h})
 				case ex2 != 0 && ex2 != 2:
 					mergeViol(si, &violRec{Sig: kf.Sig{"call": "-", "kind": "crash", "kernel": "returns", "avfs": "worker-died"}, Count: 1,
-						Replay: map[string]any{"links": sp.config(ci), "stage": st.Name, "exit": ex2, "note": "the worker process died twice while evaluating this configuration"}})
+						Replay: map[string]any{"links": sp.config(ci).Links, "move": sp.config(ci).Move, "stage": st.Name, "exit": ex2, "note": "the worker process died twice while evaluating this configuration"}})
 				default:
 					harness = fmt.Sprintf("worker %d of stage %s exited %d at configuration %d, which passes when evaluated alone", i, st.Name, exits[i], ci)
 				}
@@ -395,8 +400,8 @@ func main() {
 			exh = false
 		}
 
-		if sr.ConfigsDone > graphs[st.NLinks] {
-			graphs[st.NLinks] = sr.ConfigsDone
+		if gk := fmt.Sprint(st.NLinks, st.Moved); sr.ConfigsDone > graphs[gk] {
+			graphs[gk] = sr.ConfigsDone
 		}
 
 		evalsAll += sr.Evals
@@ -478,7 +483,7 @@ func main() {
 		Coverage: map[string]any{
 			"states": states, "transitions": evalsAll, "traces_validated_against_impl": evalsAll,
 			"evaluations": evalsAll, "distinct_nontrivial": len(classes),
-			"rule": "states = distinct configurations built on both sides (link graphs: every assignment of placement {R, R/d} x target shape to the link names; plus link chains of length 1..70); " +
+			"rule": "states = distinct configurations built on both sides (link graphs: every assignment of placement {R, R/d} x target shape to the link names; moved graphs: a graph x one move - a fixed sequence of Rename calls applied to both sides after the last Symlink: the link to the other directory, there and back, the directory R/d renamed, there and back, R/dd taking the old name of R/d, the root R renamed; plus link chains of length 1..70); " +
 				"transitions = evaluations = one call on one query path in one configuration, executed on MemFS and on tmpfs and compared (outcome kind, returned value, and for mutating calls the whole trees); " +
 				"distinct_nontrivial = distinct (call, kernel outcome, class of the query's final component: file|dir|link>file|link>dir|link>dangling|link>loop|missing; chain-length class for the sweep) classes observed",
 			"samples": samples, "exhaustive": exh,
@@ -497,7 +502,8 @@ func main() {
 			"a disagreement is additionally put to the kernel in normalised form (query made absolute and lexically cleaned, link targets lexically cleaned - what MemFS does before resolving); if the kernel's answer to the normalised question equals MemFS's answer the instance is reported under kind=normalised with the normalisation's name, and what still differs is reported separately with the classes of the normalised query",
 			"Readlink is compared with filepath.Clean of the kernel's answer (the statement allows the cleaned target); link targets in tree dumps likewise",
 			"FileInfo.Name is not compared for a query ending in '..'; directory size and link count are not compared; mtimes only for the instant set by Chtimes",
-			"with 2 links the name l3 does not exist: target l3 and query component l3 are the class of 'nope' and are left out of the 2-link stages",
+			"with 2 links the name l3 does not exist: target l3 and query component l3 are the class of 'nope' and are left out of the 2-link stages (likewise l2 in the 1-link stages)",
+			"moved stages (M, M4, N): the moves are Rename calls that the kernel performs without error on every graph (a failure on the kernel side is a harness error, a failure or a different tree on MemFS is reported under kind=setup); the oracle is the kernel's answer on the tmpfs tree that went through the same renames; after the move 'root' queries, cwd and call operands use the new name of R while absolute targets keep the old one; a Sub view as a second route to a link is not covered (no kernel counterpart short of chroot)",
 			"random larger trees (last clause of the quantifier) are sampling and are not run",
 		},
 		Violations: rep.NewCount(),
